@@ -266,33 +266,54 @@ KILLING_WRITER = r"""
 import builtins, os, sys
 _o = builtins.open
 F = os.environ["GWFV_KILL_FILE"]; OCC = int(os.environ["GWFV_KILL_OCC"]); POS = int(os.environ["GWFV_KILL_POS"])
+# POS 0..9    : die (like SIGKILL: nothing buffered reaches the disk) when the (POS+1)-th write is attempted
+# POS 99      : die when the file is about to be closed
+# POS 100+n   : flush what was written, then die at the (n+1)-th write (partial content on disk)
+# POS 200/201 : die right after / right before the rename that puts the file in place
 cnt = [0]
+def under_shutdown():
+    fr = sys._getframe(2); names = set()
+    while fr is not None:
+        names.add(fr.f_code.co_name); fr = fr.f_back
+    return bool(names & {"close", "__exit__"})
 class W:
     def __init__(s, f): s.f = f; s.n = 0
     def write(s, data):
-        if s.n >= POS:
+        if POS < 99 and s.n >= POS:
+            os._exit(137)
+        if 100 <= POS < 200 and s.n >= POS - 100:
             s.f.flush(); os._exit(137)
         s.n += 1
         return s.f.write(data)
     def close(s):
-        s.f.flush(); os._exit(137)
+        if POS < 200:
+            os._exit(137)
+        return s.f.close()
     def __enter__(s): return s
     def __exit__(s, *a): s.close()
     def __getattr__(s, k): return getattr(s.f, k)
 def o2(file, mode="r", *a, **k):
     f = _o(file, mode, *a, **k)
-    if isinstance(file, (str, bytes, os.PathLike)) and F in os.fspath(file) and any(c in mode for c in "wxa+"):
+    if POS < 200 and isinstance(file, (str, bytes, os.PathLike)) and F in os.fspath(file) and any(c in mode for c in "wxa+"):
         # only the write made while the command shuts down (under close()/__exit__): a kill
         # inside the write that records the job accepted last is the residual window A6
-        fr = sys._getframe(1); names = set()
-        while fr is not None:
-            names.add(fr.f_code.co_name); fr = fr.f_back
-        if names & {"close", "__exit__"}:
+        if under_shutdown():
             cnt[0] += 1
             if cnt[0] == OCC:
                 return W(f)
     return f
 builtins.open = o2
+def wrap_rename(orig):
+    def r(src, dst, *a, **k):
+        hit = POS >= 200 and F in os.fspath(dst) and under_shutdown()
+        if hit and POS == 201:
+            os._exit(137)
+        res = orig(src, dst, *a, **k)
+        if hit and POS == 200:
+            os._exit(137)
+        return res
+    return r
+os.replace = wrap_rename(os.replace); os.rename = wrap_rename(os.rename)
 from gwf.cli import main
 main()
 """
